@@ -90,12 +90,12 @@ func worldC09(w *World) {
 	sessions := t.Choice(2, "sessions") == 1
 	n := t.Range(2, 6, "requests")
 	type creq struct {
-		id, user string
+		id, user   string
 		forgedUser []string
 		forgedName string
-		auth      []string
-		authName  string
-		ws        bool
+		auth       []string
+		authName   string
+		ws         bool
 	}
 	reqs := make([]*creq, n)
 	fp := NewFakeProxy(w)
